@@ -35,6 +35,11 @@ package pools
 //   Commit  the pool's own pre-generated proposal (AssembleBlock, FinishBlock with P) is
 //           validated+added on L1, OnNewBlock
 //   Ext     a block from elsewhere holding X = pay A->C 300000 (proposer Q), validated+added, OnNewBlock
+// Second world "small": the same consensus version with MaxTxnBytesPerBlock = 2.5 payments, block 1 =
+// [KEYREG], items T1 T3 PB (B->C) PC (C->D) PE: a pool of three payments holds MORE than one block,
+// so the pool's evaluator hits ErrNoSpace, generates the proposal and keeps feeding the following
+// groups into the same evaluator (ResetTxnBytes) — the assembled block must still validate.
+// Thorough adds RK to the std world: a payment from R (rekeyed to K in block 1) signed by K.
 // Bound: quick: <= 3 ops (+ the Tick of clause (b)), <= 3 pending groups, <= 2 round ops (7 Remember items);
 //        thorough: <= 6 ops, <= 4 pending groups, <= 3 round ops (9 items), time-capped.
 // Key = block history (txn names + proposer per block), ordered pending groups, payset of the
@@ -62,6 +67,10 @@ package pools
 //             application's global state and box, the totals
 //   payout    FeesCollected equals the sum of the fees of the payset; an ineligible proposer (Q)
 //             is promised no payout (agreement.verifyProposer would reject the proposal)
+//   altered   for every transaction of P's proposal, single alterations that keep txid and signature
+//             (AuthAddr := Sender / cleared / := another account; commitment and Load recomputed):
+//             cold signature cache, a cache that verified the original block and the generator's own
+//             ledger must give the SAME verdict, "reject" whenever verify.TxnGroup rejects the group
 // Eval(validate=true) itself compares every recomputed ApplyData with the one in the block, so
 // "accept" includes ApplyData equality in every configuration.
 //
@@ -88,6 +97,9 @@ package pools
 //   M3 Block.WithProposer keeps ProposerPayout for an ineligible proposer -> C20:payout-ineligible
 //   M4 (own, needs Remember(PCL) then a round) UnfinishedBlock.FinishBlock no longer drops the
 //      payout of a proposer that closed its account in the block -> C20:proposal-rejected
+// Independent seeded changes (/verif/seeded): C20-A (signature cache compares Authorizer() instead of
+//   AuthAddr: warm cache accepts an AuthAddr:=Sender twin) -> C20:verdict-depends-on-cache; C20-B
+//   (ResetTxnBytes truncates the payset the generated block aliases) -> C20:proposal-rejected in "small".
 //   (a generator forgetting TxnCounter is caught by the generator's own end-of-block checks, like bare M1)
 
 import (
@@ -127,9 +139,10 @@ const (
 	// ConsensusFuture with the agreement balance lookback shortened to 2 rounds, so that an account
 	// that registered for incentives in block 1 is an ELIGIBLE proposer from round 3 on (with the
 	// real 320-round lookback no payout could ever be observed in a short history).
-	c20Proto = protocol.ConsensusVersion("verif-c20-future-short-lookback")
-	c20Fee   = 5000
-	c20Last  = 30
+	c20Proto      = protocol.ConsensusVersion("verif-c20-future-short-lookback")
+	c20ProtoSmall = protocol.ConsensusVersion("verif-c20-future-short-lookback-small-blocks")
+	c20Fee        = 5000
+	c20Last       = 30
 )
 
 // account indexes
@@ -141,6 +154,8 @@ const (
 	c20P
 	c20Q
 	c20E
+	c20R // rekeyed to K in block 1 (std world)
+	c20K
 	c20nAcct
 )
 
@@ -155,10 +170,11 @@ const (
 	c20PCL
 	c20G2
 	c20T2
+	c20RK
 	c20nItems
 )
 
-var c20ItemNames = []string{"T1", "T3", "APC", "APD", "GAP", "PE", "PCL", "G2", "T2"}
+var c20ItemNames = []string{"T1", "T3", "APC", "APD", "GAP", "PE", "PCL", "G2", "T2", "RK"}
 
 const c20AppSource = `#pragma version 10
 txn ApplicationID
@@ -193,15 +209,18 @@ int 1
 `
 
 type c20world struct {
-	params  config.ConsensusParams
-	genesis ledgercore.InitState
-	secrets []*crypto.SignatureSecrets
-	addrs   []basics.Address
-	sink    basics.Address
-	rewards basics.Address
-	nItems  int
-	maxPend int
-	maxRnd  int
+	name      string
+	proto     protocol.ConsensusVersion
+	itemNames []string
+	params    config.ConsensusParams
+	genesis   ledgercore.InitState
+	secrets   []*crypto.SignatureSecrets
+	addrs     []basics.Address
+	sink      basics.Address
+	rewards   basics.Address
+	nItems    int
+	maxPend   int
+	maxRnd    int
 
 	prefix  []transactions.SignedTxn // block 1
 	appID   basics.AppIndex
@@ -221,7 +240,7 @@ type c20world struct {
 	nLRU      atomic.Int64
 	histSeen  sync.Map // history key -> LRU-on validator takes part
 
-	finalDone sync.Map // memo of checked (history, payset)
+	finalDone sync.Map // memo of checked (history, block digest) / (history, pending list)
 	nFinal    atomic.Int64
 	nLegs     atomic.Int64
 	outcomes  sync.Map
@@ -370,12 +389,34 @@ func c20RegisterProto() {
 		p.SeedRefreshInterval = 1
 		p.ApprovedUpgrades = map[protocol.ConsensusVersion]uint64{}
 		config.Consensus[c20Proto] = p
+		// the same with blocks that hold two payments: a pool of three overflows into a second block
+		var gh crypto.Digest
+		copy(gh[:], "verif-c20-genesis-hash..........")
+		sk, a := c20Addr(0)
+		_, b := c20Addr(1)
+		tx := transactions.Transaction{Type: protocol.PaymentTx,
+			Header:           transactions.Header{Sender: a, Fee: basics.MicroAlgos{Raw: c20Fee}, LastValid: c20Last, GenesisHash: gh, Note: []byte("T1")},
+			PaymentTxnFields: transactions.PaymentTxnFields{Receiver: b, Amount: basics.MicroAlgos{Raw: 300_000}}}
+		hdr := bookkeeping.BlockHeader{GenesisHash: gh, UpgradeState: bookkeeping.UpgradeState{CurrentProtocol: c20Proto}}
+		txib, err := hdr.EncodeSignedTxn(tx.Sign(sk), transactions.ApplyData{})
+		if err != nil {
+			panic(err)
+		}
+		l := txib.GetEncodedLength()
+		p.MaxTxnBytesPerBlock = 2*l + l/2
+		config.Consensus[c20ProtoSmall] = p
 	})
 }
 
-func c20MakeWorld() (*c20world, error) {
+func c20MakeWorld(name string) (*c20world, error) {
 	c20RegisterProto()
-	w := &c20world{reps: map[string]*c20replicas{}, params: config.Consensus[c20Proto], names: map[transactions.Txid]string{}, fees: map[transactions.Txid]uint64{}}
+	small := name == "small"
+	proto := c20Proto
+	if small {
+		proto = c20ProtoSmall
+	}
+	w := &c20world{name: name, proto: proto, reps: map[string]*c20replicas{}, params: config.Consensus[proto], names: map[transactions.Txid]string{}, fees: map[transactions.Txid]uint64{}}
+	w.itemNames = c20ItemNames
 	w.nItems = ve.Pick(c20G2, c20nItems)
 	w.maxPend = ve.Pick(3, 4)
 	w.maxRnd = ve.Pick(2, 3)
@@ -417,7 +458,7 @@ func c20MakeWorld() (*c20world, error) {
 		GenesisHash:  gh,
 		TimeStamp:    1,
 		TxnCounter:   1000, // as MakeGenesisBlock does when AppForbidLowResources
-		UpgradeState: bookkeeping.UpgradeState{CurrentProtocol: c20Proto},
+		UpgradeState: bookkeeping.UpgradeState{CurrentProtocol: proto},
 		RewardsState: bookkeeping.RewardsState{FeeSink: w.sink, RewardsPool: w.rewards},
 	}}
 	var err error
@@ -425,6 +466,37 @@ func c20MakeWorld() (*c20world, error) {
 		return nil, err
 	}
 	w.genesis = ledgercore.InitState{Block: blk, Accounts: accts, GenesisHash: gh}
+	w.bl1 = execpool.MakeBacklog(c20MakeWorkers(1), 0, execpool.LowPriority, nil)
+	w.bl4 = execpool.MakeBacklog(c20MakeWorkers(4), 0, execpool.LowPriority, nil)
+	keyregTxn := func() transactions.Transaction {
+		// P registers (again) paying the GoOnlineFee: IncentiveEligible from block 1 on (genesis
+		// cannot carry the flag into the online-accounts history)
+		k := w.hdr(transactions.Transaction{
+			Type:   protocol.KeyRegistrationTx,
+			Header: transactions.Header{Sender: w.addrs[c20P], Note: []byte("keyreg")},
+			KeyregTxnFields: transactions.KeyregTxnFields{
+				VotePK: accts[w.addrs[c20P]].VoteID, SelectionPK: accts[w.addrs[c20P]].SelectionID, StateProofPK: accts[w.addrs[c20P]].StateProofID,
+				VoteFirst: 1, VoteLast: 1_000_000, VoteKeyDilution: 10000,
+			},
+		})
+		k.Fee = basics.MicroAlgos{Raw: w.params.Payouts.GoOnlineFee}
+		return k
+	}
+	if small {
+		// payments only; block 1 = [KEYREG]; blocks hold two payments
+		w.prefix = []transactions.SignedTxn{w.sign(keyregTxn(), c20P, "KEYREG")}
+		w.itemNames = []string{"T1", "T3", "PB", "PC", "PE"}
+		w.nItems = len(w.itemNames)
+		w.items = [][]transactions.SignedTxn{
+			{w.sign(w.pay(c20A, c20B, 300_000, "T1"), c20A, "T1")},
+			{w.sign(w.pay(c20A, c20B, 300_001, "T3"), c20A, "T3")},
+			{w.sign(w.pay(c20B, c20C, 1000, "PB"), c20B, "PB")},
+			{w.sign(w.pay(c20C, c20D, 2000, "PC"), c20C, "PC")},
+			{w.sign(w.pay(c20B, c20E, 1000, "PE"), c20B, "PE")},
+		}
+		w.extX = []transactions.SignedTxn{w.sign(w.pay(c20A, c20C, 300_000, "X"), c20A, "X")}
+		return w, nil
+	}
 
 	// application
 	ops, err := logic.AssembleString(c20AppSource)
@@ -443,17 +515,6 @@ func c20MakeWorld() (*c20world, error) {
 			GlobalStateSchema: basics.StateSchema{NumUint: 1},
 		},
 	})
-	// P registers (again) paying the GoOnlineFee: IncentiveEligible from block 1 on (genesis cannot
-	// carry the flag into the online-accounts history)
-	keyreg := w.hdr(transactions.Transaction{
-		Type:   protocol.KeyRegistrationTx,
-		Header: transactions.Header{Sender: w.addrs[c20P], Note: []byte("keyreg")},
-		KeyregTxnFields: transactions.KeyregTxnFields{
-			VotePK: accts[w.addrs[c20P]].VoteID, SelectionPK: accts[w.addrs[c20P]].SelectionID, StateProofPK: accts[w.addrs[c20P]].StateProofID,
-			VoteFirst: 1, VoteLast: 1_000_000, VoteKeyDilution: 10000,
-		},
-	})
-	keyreg.Fee = basics.MicroAlgos{Raw: w.params.Payouts.GoOnlineFee}
 	w.prefix = []transactions.SignedTxn{w.sign(create, c20D, "CREATE")}
 	// learn the application id from a scratch ledger
 	l, err := w.openLedger(true)
@@ -482,7 +543,9 @@ func c20MakeWorld() (*c20world, error) {
 		Header:           transactions.Header{Sender: w.addrs[c20D], Note: []byte("fund")},
 		PaymentTxnFields: transactions.PaymentTxnFields{Receiver: w.appAddr, Amount: basics.MicroAlgos{Raw: 10_000_000}},
 	})
-	w.prefix = append(w.prefix, w.sign(fund, c20D, "FUND"), w.sign(keyreg, c20P, "KEYREG"))
+	rekey := w.pay(c20R, c20R, 0, "rekey")
+	rekey.RekeyTo = w.addrs[c20K]
+	w.prefix = append(w.prefix, w.sign(fund, c20D, "FUND"), w.sign(keyregTxn(), c20P, "KEYREG"), w.sign(rekey, c20R, "REKEY"))
 
 	one := func(name string, tx transactions.Transaction, from int) []transactions.SignedTxn {
 		return []transactions.SignedTxn{w.sign(tx, from, name)}
@@ -505,9 +568,11 @@ func c20MakeWorld() (*c20world, error) {
 	pcl.CloseRemainderTo = w.addrs[c20B]
 	w.items[c20PCL] = one("PCL", pcl, c20P)
 	w.extX = one("X", w.pay(c20A, c20C, 300_000, "X"), c20A)
-
-	w.bl1 = execpool.MakeBacklog(c20MakeWorkers(1), 0, execpool.LowPriority, nil)
-	w.bl4 = execpool.MakeBacklog(c20MakeWorkers(4), 0, execpool.LowPriority, nil)
+	// R was rekeyed to K in block 1: signed by K, AuthAddr = K
+	rk := w.pay(c20R, c20B, 1000, "RK").Sign(w.secrets[c20K])
+	rk.AuthAddr = w.addrs[c20K]
+	w.names[rk.ID()], w.fees[rk.ID()] = "RK", rk.Txn.Fee.Raw
+	w.items[c20RK] = []transactions.SignedTxn{rk}
 	return w, nil
 }
 
@@ -542,12 +607,13 @@ type c20sys struct {
 	bad    error
 	badKey string // set when bad is a property violation (a generated block was refused), not a harness failure
 
-	hist     []bookkeeping.Block
-	histName []string
-	nRound   int
-	asmNames string // payset of the pre-generated proposal
-	outcome  string
-	consumed bool // Final mutated the instance
+	hist      []bookkeeping.Block
+	histName  []string
+	nRound    int
+	asmNames  string // payset of the pre-generated proposal
+	asmDigest string // digest of the whole pre-generated (unfinished) block: a block is NOT assumed to be a function of its payset names
+	outcome   string
+	consumed  bool // Final mutated the instance
 }
 
 func (s *c20sys) name(id transactions.Txid) string {
@@ -611,7 +677,7 @@ func c20New(w *c20world) *c20sys {
 	if err := s.addToL1(blk, "Q", false); err != nil {
 		// a block generated by the real evaluator and finished like a proposal is refused by
 		// validation on the same state: that is the property, not a harness problem
-		s.bad = fmt.Errorf("block 1 [CREATE,FUND,KEYREG] generated by a fresh evaluator for proposer Q is not accepted: %w", err)
+		s.bad = fmt.Errorf("block 1 generated by a fresh evaluator for proposer Q is not accepted: %w", err)
 		s.badKey = "C20:external-block-rejected"
 		return s
 	}
@@ -675,7 +741,10 @@ func (s *c20sys) refreshAsm() error {
 	if err != nil {
 		return err
 	}
-	s.asmNames, err = s.paysetNames(ub.UnfinishedBlock())
+	blk := ub.UnfinishedBlock()
+	h := sha256.Sum256(protocol.Encode(&blk))
+	s.asmDigest = hex.EncodeToString(h[:8])
+	s.asmNames, err = s.paysetNames(blk)
 	return err
 }
 
@@ -722,9 +791,14 @@ func (s *c20sys) apply(op int) (bool, error) {
 		}
 		err = s.pool.Remember(g)
 		if err == nil {
-			s.outcome = "remember/" + c20ItemNames[op] + "/admitted"
+			s.outcome = "remember/" + w.itemNames[op] + "/admitted"
 		} else {
-			s.outcome = "remember/" + c20ItemNames[op] + "/rejected:" + ClassifyTxPoolError(err)
+			s.outcome = "remember/" + w.itemNames[op] + "/rejected:" + ClassifyTxPoolError(err)
+		}
+		// the proposal pre-generated for this round must not be affected by later submissions: take
+		// its digest again (a block is re-checked whenever its digest is new)
+		if err := s.refreshAsm(); err != nil {
+			return true, ve.Violationf("C20:assemble-error", "AssembleBlock after %s: %v", c20OpName(w, op), err)
 		}
 		return true, nil
 	case s.nRound >= w.maxRnd:
@@ -778,7 +852,7 @@ func (s *c20sys) apply(op int) (bool, error) {
 func c20OpName(w *c20world, op int) string {
 	switch {
 	case op < w.nItems:
-		return "Remember(" + c20ItemNames[op] + ")"
+		return "Remember(" + w.itemNames[op] + ")"
 	case op == w.nItems:
 		return "Tick"
 	case op == w.nItems+1:
@@ -789,7 +863,7 @@ func c20OpName(w *c20world, op int) string {
 }
 
 func (s *c20sys) key() string {
-	return fmt.Sprintf("h%s|p[%s]|a[%s]|m%d|w%d", strings.Join(s.histName, ""), s.groupsNames(s.pool.PendingTxGroups()), s.asmNames,
+	return fmt.Sprintf("h%s|p[%s]|a[%s]%s|m%d|w%d", strings.Join(s.histName, ""), s.groupsNames(s.pool.PendingTxGroups()), s.asmNames, s.asmDigest,
 		s.pool.feeThresholdMultiplier, s.pool.numPendingWholeBlocks)
 }
 
@@ -993,7 +1067,7 @@ func (s *c20sys) acquireReplicas() *c20replicas {
 		// of clause (b) from the start state, i.e. every pool content) and, in the thorough tier, 1
 		// in 16 of the others.
 		h := sha256.Sum256([]byte(hk))
-		lru := len(s.hist) <= 2 || (ve.Thorough() && h[0]%16 == 0)
+		lru := w.name == "std" && (len(s.hist) <= 2 || (ve.Thorough() && h[0]%16 == 0))
 		w.histSeen.Store(hk, lru)
 		if lru {
 			w.nLRU.Add(1)
@@ -1024,7 +1098,10 @@ func (w *c20world) releaseReplicas(e *c20replicas) {
 func (s *c20sys) stateDump(l *ledger.Ledger) (string, error) {
 	var b strings.Builder
 	w := s.w
-	addrs := append(append([]basics.Address{}, w.addrs...), w.sink, w.rewards, w.appAddr)
+	addrs := append(append([]basics.Address{}, w.addrs...), w.sink, w.rewards)
+	if w.appID != 0 {
+		addrs = append(addrs, w.appAddr)
+	}
 	for _, a := range addrs {
 		d, _, _, err := l.LookupLatest(a)
 		if err != nil {
@@ -1034,18 +1111,20 @@ func (s *c20sys) stateDump(l *ledger.Ledger) (string, error) {
 		c20Dump(&b, reflect.ValueOf(d), &c20dumpOpts{}, 0)
 		b.WriteString("\n")
 	}
-	rnd := l.Latest()
-	app, err := l.LookupApplication(rnd, w.addrs[c20D], w.appID)
-	if err != nil {
-		return "", err
+	if w.appID != 0 {
+		rnd := l.Latest()
+		app, err := l.LookupApplication(rnd, w.addrs[c20D], w.appID)
+		if err != nil {
+			return "", err
+		}
+		b.WriteString("app=")
+		c20Dump(&b, reflect.ValueOf(app), &c20dumpOpts{}, 0)
+		kv, err := l.LookupKv(rnd, apps.MakeBoxKey(uint64(w.appID), "b"))
+		if err != nil {
+			return "", err
+		}
+		b.WriteString("\nbox=" + hex.EncodeToString(kv))
 	}
-	b.WriteString("app=")
-	c20Dump(&b, reflect.ValueOf(app), &c20dumpOpts{}, 0)
-	kv, err := l.LookupKv(rnd, apps.MakeBoxKey(uint64(w.appID), "b"))
-	if err != nil {
-		return "", err
-	}
-	b.WriteString("\nbox=" + hex.EncodeToString(kv))
 	_, tot, err := l.LatestTotals()
 	if err != nil {
 		return "", err
@@ -1213,20 +1292,171 @@ func (s *c20sys) checkProposal(ub *ledgercore.UnfinishedBlock, what string) erro
 		if ownCanon != refPartial {
 			return ve.Violationf("C20:delta-differs-pool", "%s: the pool's own UnfinishedDeltas differ from %s (proposer/sink records, totals, header excluded): %s", desc, refName, c20Diff(ownCanon, refPartial))
 		}
+		if pidx == c20P {
+			if err := s.checkAlterations(blk, desc, l3); err != nil {
+				return err
+			}
+		}
 	}
 	return nil
+}
+
+// checkAlterations: the verdict on a block must not depend on what the signature cache holds —
+// also for blocks a dishonest proposer derives from the proposal. For every transaction of the
+// block, single alterations that keep the txid and the signature (the authorizing address is not
+// part of the signed transaction): AuthAddr := Sender, AuthAddr cleared (when set), and for the
+// first transaction AuthAddr := another account; the payset commitment and the Load field are
+// recomputed so that nothing else is wrong with the block. Each altered block is evaluated with a cold signature
+// cache, with a cache that has verified the ORIGINAL block, and by the generator's own ledger
+// (whose cache verified the originals when they were submitted). All verdicts must agree, they
+// must be "reject" whenever verify.TxnGroup rejects the altered group, and accepted variants must
+// produce the same StateDelta.
+func (s *c20sys) checkAlterations(blk bookkeeping.Block, desc string, l3 *ledger.Ledger) error {
+	w := s.w
+	ctx := context.Background()
+	if len(blk.Payset) == 0 {
+		return nil
+	}
+	warm := verify.MakeVerifiedTransactionCache(64)
+	w.nLegs.Add(1)
+	if _, err := eval.Eval(ctx, l3, blk, true, warm, w.bl4, nil); err != nil {
+		return ve.Violationf("C20:proposal-rejected", "%s: eval.Eval(L3, validate, fresh sig cache) rejects it: %v", desc, err)
+	}
+	for i := range blk.Payset {
+		stx, ad, err := blk.DecodeSignedTxn(blk.Payset[i])
+		if err != nil {
+			return ve.Violationf("C20:harness", "harness: decode payset[%d]: %v", i, err)
+		}
+		type alt struct {
+			name string
+			auth basics.Address
+		}
+		alts := []alt{{"AuthAddr:=Sender", stx.Txn.Sender}}
+		if !stx.AuthAddr.IsZero() {
+			alts = append(alts, alt{"AuthAddr cleared", basics.Address{}})
+		}
+		if i == 0 {
+			other := w.addrs[c20B]
+			if other == stx.Txn.Sender || other == stx.AuthAddr {
+				other = w.addrs[c20C]
+			}
+			alts = append(alts, alt{"AuthAddr:=another account", other})
+		}
+		for _, a := range alts {
+			astx := stx
+			astx.AuthAddr = a.auth
+			ab := blk
+			ab.Payset = append(transactions.Payset{}, blk.Payset...)
+			txib, err := ab.EncodeSignedTxn(astx, ad)
+			if err != nil || astx.ID() != stx.ID() {
+				return ve.Violationf("C20:harness", "harness: altered payset[%d]: %v", i, err)
+			}
+			ab.Payset[i] = txib
+			if ab.TxnCommitments, err = ab.PaysetCommit(); err != nil {
+				return ve.Violationf("C20:harness", "harness: PaysetCommit: %v", err)
+			}
+			c20FixLoad(&ab, w)
+			adesc := fmt.Sprintf("%s, altered: %s on transaction %d (%s), txid and signature unchanged", desc, a.name, i, s.name(stx.ID()))
+			// what signature verification says about the altered groups
+			groups, err := ab.DecodePaysetGroups()
+			if err != nil {
+				return ve.Violationf("C20:harness", "harness: DecodePaysetGroups: %v", err)
+			}
+			var sigErr error
+			for _, g := range groups {
+				plain := make([]transactions.SignedTxn, len(g))
+				for k := range g {
+					plain[k] = g[k].SignedTxn
+				}
+				if _, err := verify.TxnGroup(plain, &ab.BlockHeader, verify.MakeVerifiedTransactionCache(8), l3); err != nil {
+					sigErr = err
+				}
+			}
+			type verdict struct {
+				name  string
+				err   error
+				canon string
+			}
+			run := func(name string, f func() (ledgercore.StateDelta, error)) verdict {
+				w.nLegs.Add(1)
+				d, err := f()
+				v := verdict{name: name, err: err}
+				if err == nil {
+					v.canon = c20Canon(&d, &c20dumpOpts{})
+				}
+				return v
+			}
+			vs := []verdict{
+				run("cold signature cache", func() (ledgercore.StateDelta, error) {
+					return eval.Eval(ctx, l3, ab, true, verify.MakeVerifiedTransactionCache(64), w.bl4, nil)
+				}),
+				run("signature cache that verified the original block", func() (ledgercore.StateDelta, error) {
+					return eval.Eval(ctx, l3, ab, true, warm, w.bl1, nil)
+				}),
+				run("generator ledger L1 (cache warmed by the submissions)", func() (ledgercore.StateDelta, error) {
+					vb, err := s.l1.Validate(ctx, ab, w.bl4)
+					if err != nil {
+						return ledgercore.StateDelta{}, err
+					}
+					return vb.Delta(), nil
+				}),
+			}
+			w.outcomes.Store(fmt.Sprintf("altered/%s/sigvalid=%v/accepted=%v", a.name, sigErr == nil, vs[0].err == nil), true)
+			for _, v := range vs[1:] {
+				if (v.err == nil) != (vs[0].err == nil) {
+					return ve.Violationf("C20:verdict-depends-on-cache", "%s: with a %s the block is %s, with a %s it is %s (signature verification of the altered group says: %v)",
+						adesc, vs[0].name, c20Verdict(vs[0].err), v.name, c20Verdict(v.err), c20Verdict(sigErr))
+				}
+				if v.err == nil && v.canon != vs[0].canon {
+					return ve.Violationf("C20:delta-differs", "%s: StateDelta with a %s differs from the one with a %s: %s", adesc, v.name, vs[0].name, c20Diff(v.canon, vs[0].canon))
+				}
+			}
+			if sigErr != nil && vs[0].err == nil {
+				return ve.Violationf("C20:invalid-signature-accepted", "%s: validation accepts the block although signature verification rejects the altered group: %v", adesc, sigErr)
+			}
+		}
+	}
+	return nil
+}
+
+// c20FixLoad recomputes the header's Load (block utilisation) for an altered payset, as a
+// proposer would.
+func c20FixLoad(b *bookkeeping.Block, w *c20world) {
+	if !w.params.LoadTracking {
+		return
+	}
+	n := 0
+	for i := range b.Payset {
+		n += b.Payset[i].GetEncodedLength()
+	}
+	b.Load = eval.ComputeLoad(n, w.params.MaxTxnBytesPerBlock)
+}
+
+func c20Verdict(err error) string {
+	if err == nil {
+		return "ACCEPTED"
+	}
+	msg := err.Error()
+	if i := strings.LastIndex(msg, "} "); i >= 0 && len(msg) > 300 {
+		msg = "..." + msg[i+2:]
+	}
+	if len(msg) > 300 {
+		msg = msg[:300] + "..."
+	}
+	return fmt.Sprintf("REJECTED (%s)", msg)
 }
 
 func c20PtrDelta(d ledgercore.StateDelta) *ledgercore.StateDelta { return &d }
 
 // final: (a) the pre-generated proposal of this state (non-destructive); (b) one Tick later, the
 // re-evaluated proposal that holds every still-valid pending group (consumes the instance).
-// Both are memoised: a proposal is a function of (history, payset) resp. (history, pending list).
+// Both are memoised: (a) by history + digest of the whole assembled block, (b) by history + ordered
+// pending list (the recompute starts from exactly that).
 func (s *c20sys) final() error {
 	w := s.w
 	hk := strings.Join(s.histName, "")
 	check := func(what string) error {
-		if _, done := w.finalDone.LoadOrStore("a|"+strings.Join(s.histName, "")+"|"+s.asmNames, true); done {
+		if _, done := w.finalDone.LoadOrStore("a|"+strings.Join(s.histName, "")+"|"+s.asmNames+"|"+s.asmDigest, true); done {
 			return nil
 		}
 		ub, err := s.assemble()
@@ -1308,96 +1538,115 @@ func TestVerif_C20(t *testing.T) {
 	r.Assume("the goroutine interleavings inside the prefetcher / signature pool / evaluator loop are NOT enumerated: each evaluation runs them freely; only configurations (workers 1/4, caches cold/warm, LRU on/off, generating evaluator without prefetch) and 3 repetitions are varied")
 	r.Assume("transactions are correctly signed and verified with verify.TxnGroup before Remember, as the txHandler does; the pool is driven synchronously (zero assembly deadline: never waits, never truncates a block)")
 	r.Assume("block seed / certificate / proposer credentials are agreement's business: fixed seed, proposer eligibility computed like agreement.payoutEligible")
-	w, err := c20MakeWorld()
-	if err != nil {
-		t.Fatalf("C20 harness: cannot build the world: %v", err)
-	}
-	probe := c20New(w)
-	if probe.bad != nil {
-		if probe.badKey == "" {
-			t.Fatalf("C20 harness: start state cannot be built: %v", probe.bad)
-		}
-		r.Report(probe.badKey, probe.bad.Error(), map[string]any{"engine": "seq", "harness": "propose", "ops": []int{}})
-		probe.close()
-		if n := r.Finish(ve.Coverage{Rule: "start state only: block 1 was refused"}); n > 0 {
-			t.Fatalf("C20: %d violation(s)", n)
-		}
-		return
-	}
-	probe.close()
-	nOps := w.nItems + 3
 	depth := ve.Pick(3, 6)
-	q := &ve.Seq[*c20h]{
-		Name:   "propose",
-		NumOps: nOps,
-		OpName: func(op int) string { return c20OpName(w, op) },
-		New:    func() *c20h { return &c20h{world: w, sys: c20New(w)} },
-		Clone:  c20Clone,
-		Close:  c20Close,
-		Apply: func(h *c20h, op int) (bool, error) {
-			s := h.sys
-			if s.bad != nil {
-				h.dirty = true
-				return true, ve.Violationf("C20:harness", "harness: %v", s.bad)
-			}
-			h.ops = append(h.ops, op)
-			en, err := s.apply(op)
-			if err != nil {
-				h.dirty = true
-			}
-			if en && err == nil {
-				w.outcomes.Store(s.outcome, true)
-			}
-			return en, err
-		},
-		Key: func(h *c20h) string { return h.sys.key() },
-		Final: func(h *c20h) error {
-			err := h.sys.final()
-			if err != nil {
-				h.dirty = true
-			}
-			return err
-		},
-		Observe:  func(h *c20h) string { return h.sys.outcome },
-		MaxDepth: depth,
-	}
-	// the start state's own proposal
-	s0 := c20New(w)
-	if err := s0.final(); err != nil {
-		r.Report("C20:start", err.Error(), map[string]any{"engine": "seq", "harness": "propose", "ops": []int{}})
-	}
-	s0.close()
 	var cov ve.Coverage
-	res := q.Explore(r)
-	cov.AddSeq(res)
-	cov.Exhaustive = res.Exhaustive
-	for _, e := range w.reps {
-		e.close()
-	}
-	w.bl1.Shutdown()
-	w.bl4.Shutdown()
+	cov.Exhaustive = true
+	allOutcomes := map[string]bool{}
+	var nFinal, nLegs int64
 	nh, nl := 0, 0
-	w.histSeen.Range(func(_, v any) bool {
-		nh++
-		if v.(bool) {
-			nl++
+	var rules []string
+	for _, wname := range []string{"std", "small"} {
+		w, err := c20MakeWorld(wname)
+		if err != nil {
+			t.Fatalf("C20 harness: cannot build the world %s: %v", wname, err)
 		}
-		return true
-	})
-	r.Set("distinct_histories_validated", nh)
-	r.Set("distinct_histories_with_lru_validator", nl)
+		probe := c20New(w)
+		if probe.bad != nil {
+			if probe.badKey == "" {
+				t.Fatalf("C20 harness: start state of %s cannot be built: %v", wname, probe.bad)
+			}
+			r.Report(probe.badKey, probe.bad.Error(), map[string]any{"engine": "seq", "harness": "propose/" + wname, "ops": []int{}})
+			probe.close()
+			if n := r.Finish(ve.Coverage{Rule: "start state only: block 1 was refused"}); n > 0 {
+				t.Fatalf("C20: %d violation(s)", n)
+			}
+			return
+		}
+		probe.close()
+		nOps := w.nItems + 3
+		q := &ve.Seq[*c20h]{
+			Name:   "propose/" + wname,
+			NumOps: nOps,
+			OpName: func(op int) string { return c20OpName(w, op) },
+			New:    func() *c20h { return &c20h{world: w, sys: c20New(w)} },
+			Clone:  c20Clone,
+			Close:  c20Close,
+			Apply: func(h *c20h, op int) (bool, error) {
+				s := h.sys
+				if s.bad != nil {
+					h.dirty = true
+					return true, ve.Violationf("C20:harness", "harness: %v", s.bad)
+				}
+				h.ops = append(h.ops, op)
+				en, err := s.apply(op)
+				if err != nil {
+					h.dirty = true
+				}
+				if en && err == nil {
+					w.outcomes.Store(s.outcome, true)
+				}
+				return en, err
+			},
+			Key: func(h *c20h) string { return h.sys.key() },
+			Final: func(h *c20h) error {
+				err := h.sys.final()
+				if err != nil {
+					h.dirty = true
+				}
+				return err
+			},
+			Observe:  func(h *c20h) string { return h.sys.outcome },
+			MaxDepth: depth,
+		}
+		// the start state's own proposal
+		if r.ReplayRequest() == nil {
+			s0 := c20New(w)
+			if err := s0.final(); err != nil {
+				r.Report("C20:start", err.Error(), map[string]any{"engine": "seq", "harness": "propose/" + wname, "ops": []int{}})
+			}
+			s0.close()
+		}
+		res := q.Explore(r)
+		cov.AddSeq(res)
+		if !res.Exhaustive {
+			cov.Exhaustive = false
+		}
+		for _, e := range w.reps {
+			e.close()
+		}
+		w.bl1.Shutdown()
+		w.bl4.Shutdown()
+		w.outcomes.Range(func(k, _ any) bool { allOutcomes[wname+"/"+k.(string)] = true; return true })
+		w.histSeen.Range(func(_, v any) bool {
+			nh++
+			if v.(bool) {
+				nl++
+			}
+			return true
+		})
+		nFinal += w.nFinal.Load()
+		nLegs += w.nLegs.Load()
+		r.Set("depth_completed_"+wname, res.DepthCompleted)
+		rules = append(rules, fmt.Sprintf("%s: %d group kinds, <= %d pending groups, <= %d round ops", wname, w.nItems, w.maxPend, w.maxRnd))
+		if r.Violations() > 0 {
+			break
+		}
+	}
 	var outs []string
-	w.outcomes.Range(func(k, _ any) bool { outs = append(outs, k.(string)); return true })
+	for o := range allOutcomes {
+		outs = append(outs, o)
+	}
 	sort.Strings(outs)
 	for _, o := range outs {
 		r.Class("outcome/" + o)
 	}
 	r.Set("outcome_classes", outs)
-	r.Set("proposals_checked", w.nFinal.Load())
-	r.Set("evaluations_of_proposals", w.nLegs.Load())
-	r.Set("depth_completed", res.DepthCompleted)
-	r.EvalN(int(w.nLegs.Load()))
-	cov.Rule = fmt.Sprintf("every sequence of <= %d ops (Remember of %d group kinds with <= %d pending groups; Tick/Commit/Ext, <= %d of them) on the real TransactionPool+Ledger; every distinct (history, proposal) validated/evaluated on 2 further ledgers x {1,4 workers} x {cold,warm sig cache} x {LRU on,off} x 3 repetitions + generating evaluator without prefetch, for 2 proposers; canonical StateDelta / block / resulting state compared", depth, w.nItems, w.maxPend, w.maxRnd)
+	r.Set("distinct_histories_validated", nh)
+	r.Set("distinct_histories_with_lru_validator", nl)
+	r.Set("proposals_checked", nFinal)
+	r.Set("evaluations_of_proposals", nLegs)
+	r.EvalN(int(nLegs))
+	cov.Rule = fmt.Sprintf("every sequence of <= %d ops (Remember; Tick/Commit/Ext) on the real TransactionPool+Ledger, two worlds (%s); every distinct (history, proposal) validated/evaluated on further ledgers x {1,4 workers} x {cold,warm sig cache} x {LRU on,off} x 3 repetitions + generating evaluator without prefetch, for 2 proposers; canonical StateDelta / block / resulting state compared; every single AuthAddr alteration of every transaction of every proposal judged identically with cold and warm signature caches", depth, strings.Join(rules, "; "))
 	if n := r.Finish(cov); n > 0 {
 		t.Fatalf("C20: %d violation(s)", n)
 	}
